@@ -80,6 +80,38 @@ fn main() {
             let r = tree_sitter_graph::ast::File::from_str(oracle::tree::python(), &t);
             println!("{}", if r.is_ok() { "ok" } else { "error" });
         }
+        "exec-probe" => {
+            // tsgmon exec-probe <dsl file> <source file> <strict|lazy>: load and execute in a process
+            // of its own (hangs and runaway allocation can then be observed from the outside)
+            // (`exec-probe - <strict|lazy>` reads {"dsl": .., "source": ..} from stdin instead)
+            let (dsl, source, lazy) = if args.get(2).map(|s| s == "-").unwrap_or(false) {
+                let mut t = String::new();
+                use std::io::Read;
+                let _ = std::io::stdin().read_to_string(&mut t);
+                let v: serde_json::Value = serde_json::from_str(&t).unwrap_or(serde_json::Value::Null);
+                (v["dsl"].as_str().unwrap_or("").to_string(), v["source"].as_str().unwrap_or("").to_string(), args.get(3).map(|s| s == "lazy").unwrap_or(false))
+            } else {
+                (
+                    std::fs::read_to_string(args.get(2).cloned().unwrap_or_default()).unwrap_or_default(),
+                    std::fs::read_to_string(args.get(3).cloned().unwrap_or_default()).unwrap_or_default(),
+                    args.get(4).map(|s| s == "lazy").unwrap_or(false),
+                )
+            };
+            match tree_sitter_graph::ast::File::from_str(oracle::tree::python(), &dsl) {
+                Err(e) => println!("load error: {}", e),
+                Ok(file) => {
+                    println!("loaded");
+                    let tree = oracle::tree::parse_python(&source);
+                    let functions = tree_sitter_graph::functions::Functions::stdlib();
+                    let vars = tree_sitter_graph::Variables::new();
+                    let config = tree_sitter_graph::ExecutionConfig::new(&functions, &vars).lazy(lazy);
+                    match file.execute(&tree, &source, &config, &tree_sitter_graph::NoCancellation) {
+                        Ok(g) => println!("graph with {} nodes", g.node_count()),
+                        Err(e) => println!("execution error: {}", e),
+                    }
+                }
+            }
+        }
         "query-probe" => {
             // compile a query read from stdin with plain tree-sitter (used to attribute hangs of
             // tree-sitter's own query compiler)
